@@ -73,6 +73,8 @@ def first_tokens(g: G, _st: Optional[Set[int]] = None) -> List[G]:
 
 def is_open_token(t: G) -> bool:
     """A token class that accepts arbitrary user text (identifier, string, number, free text)."""
+    if t.kind == 'regex' and comment_forms(t) is not None:
+        return False            # a comment token written as a regular expression starts with its marker
     return t.kind in ('word', 'quoted', 'charsnotin', 'skipto', 'regex')
 
 
@@ -293,8 +295,7 @@ def is_comment(g: G) -> bool:
     """g is the comment token: alternatives that are all comment forms."""
     while g.kind in ('suppress',) and g.kids:
         g = g.kids[0]
-    alts = flatten_alt(g, ('first', 'or')) if g.kind in ('first', 'or') else [g]
-    return bool(alts) and all(a.kind == 'and' and is_comment_form(a) for a in alts)
+    return comment_forms(g) is not None
 
 
 def is_blank_skipper(g: G, _st: Optional[Set[int]] = None) -> bool:
@@ -680,3 +681,125 @@ def unsuppressed_comments(g: G, top: bool = True, _st: Optional[Set[int]] = None
     for k in g.kids:
         out.extend(unsuppressed_comments(k, False, _st))
     return out
+
+
+# ----------------------------------------------------------------------------------------------
+# regular-expression tokens (re._parser ASTs)
+# ----------------------------------------------------------------------------------------------
+
+def _sre():
+    import re._parser as sp      # Python 3.11+
+    import re._constants as sc
+    return sp, sc
+
+
+def _set_has(items, ch: int, sc) -> bool:
+    neg = False
+    hit = False
+    for op, av in items:
+        if op is sc.NEGATE:
+            neg = True
+        elif op is sc.LITERAL:
+            hit = hit or av == ch
+        elif op is sc.RANGE:
+            hit = hit or av[0] <= ch <= av[1]
+        elif op is sc.CATEGORY:
+            c = chr(ch)
+            m = {sc.CATEGORY_SPACE: c.isspace(), sc.CATEGORY_NOT_SPACE: not c.isspace(), sc.CATEGORY_DIGIT: c.isdigit(),
+                 sc.CATEGORY_NOT_DIGIT: not c.isdigit(), sc.CATEGORY_WORD: c.isalnum() or c == '_',
+                 sc.CATEGORY_NOT_WORD: not (c.isalnum() or c == '_')}
+            hit = hit or m.get(av, True)
+    return hit != neg
+
+
+def _seq_can_consume(seq, ch: int, flags: int, sc) -> bool:
+    import re
+    for op, av in seq:
+        if op is sc.LITERAL and av == ch:
+            return True
+        if op is sc.NOT_LITERAL and av != ch:
+            return True
+        if op is sc.ANY and (flags & re.DOTALL or ch != 10):
+            return True
+        if op is sc.IN and _set_has(av, ch, sc):
+            return True
+        if op is sc.BRANCH and any(_seq_can_consume(b, ch, flags, sc) for b in av[1]):
+            return True
+        if op is sc.SUBPATTERN and _seq_can_consume(av[-1], ch, flags, sc):
+            return True
+        if op in (sc.MAX_REPEAT, sc.MIN_REPEAT) and _seq_can_consume(av[2], ch, flags, sc):
+            return True
+        if hasattr(sc, 'POSSESSIVE_REPEAT') and op is sc.POSSESSIVE_REPEAT and _seq_can_consume(av[2], ch, flags, sc):
+            return True
+        if hasattr(sc, 'ATOMIC_GROUP') and op is sc.ATOMIC_GROUP and _seq_can_consume(av, ch, flags, sc):
+            return True
+    return False
+
+
+def _literal_prefix(seq, sc) -> str:
+    out = []
+    for op, av in seq:
+        if op is sc.LITERAL:
+            out.append(chr(av))
+            continue
+        if op is sc.SUBPATTERN:
+            inner = av[-1]
+            if len(inner) == 1 and inner[0][0] is sc.BRANCH:
+                break
+            out.append(_literal_prefix(inner, sc))
+            # continue only if the whole group was literal
+            if all(o is sc.LITERAL for o, _ in inner):
+                continue
+        break
+    return ''.join(out)
+
+
+def regex_branches(pattern: str, flags: int = 0) -> List[Tuple[str, bool]]:
+    """Top-level alternatives of a regular expression: (literal prefix, can consume a line break)."""
+    sp, sc = _sre()
+    tree = sp.parse(pattern, flags)
+    seq = list(tree)
+    while len(seq) == 1 and seq[0][0] is sc.SUBPATTERN:
+        seq = list(seq[0][1][-1])
+    if seq and seq[-1][0] is sc.BRANCH and all(op is sc.LITERAL for op, _ in seq[:-1]):
+        # the parser factors a common literal prefix out of the alternatives: put it back
+        branches = [list(seq[:-1]) + list(b) for b in seq[-1][1][1]]
+    else:
+        branches = [seq]
+    out = []
+    for b in branches:
+        bb = b
+        while len(bb) == 1 and bb[0][0] is sc.SUBPATTERN:
+            bb = list(bb[0][1][-1])
+        out.append((_literal_prefix(bb, sc), _seq_can_consume(bb, 10, flags, sc)))
+    return out
+
+
+def comment_forms(g: G) -> Optional[List[Tuple[str, bool]]]:
+    """[(form, can a LINE comment run over a line break / does the block form have its terminator)] for a
+    comment token, None if g is not one.  form in 'line' | 'block'."""
+    while g.kind == 'suppress' and g.kids:
+        g = g.kids[0]
+    alts = flatten_alt(g, ('first', 'or')) if g.kind in ('first', 'or') else [g]
+    out: List[Tuple[str, bool]] = []
+    for a in alts:
+        if a.kind == 'and':
+            f = is_comment_form(a)
+            if f is None:
+                return None
+            out.append((f, False))
+        elif a.kind == 'regex':
+            try:
+                brs = regex_branches(a.a['pattern'], a.a.get('flags', 0) or 0)
+            except Exception:
+                return None
+            for prefix, nl in brs:
+                if prefix.startswith('//'):
+                    out.append(('line', nl))
+                elif prefix.startswith('/*'):
+                    out.append(('block', False))
+                else:
+                    return None
+        else:
+            return None
+    return out or None
